@@ -696,9 +696,15 @@ pub fn home(prop: &str, class: &str) -> bool {
     let generic = class.starts_with("replay-") || class.starts_with("panic-or-error-in-query");
     match prop {
         "c15" => c15 || generic,
-        "c16" => c16 || generic || class.starts_with("matured-unbonding-"),
+        // (payouts of slashed unbondings are judged in C16's sweep, where one block update matures
+        // everything pending, not during the exploration: see `home_c16_sweep`)
+        "c16" => c16 || generic,
         _ => (!c15 && !c16) || class.starts_with("panic-"),
     }
+}
+
+pub fn home_c16_sweep(class: &str) -> bool {
+    home("c16", class) || class.starts_with("matured-unbonding-")
 }
 
 fn panic_site(p: &str) -> String {
@@ -829,8 +835,8 @@ pub fn explore(ctx: &Ctx, nm: &Names, alpha: &[SOp], max_depth: usize, cfg: &Cfg
                         }
                     }
                     n += 1;
-                    if good && (cur.storage.data != s.storage.data || cur.block != s.block) {
-                        ctx.violation(&format!("{}:replay-from-genesis-differs-from-snapshot-derived-state", prop), json!({"engine": "staking", "history": s.path.iter().map(|i| sop_label(&alpha[*i as usize])).collect::<Vec<_>>()}));
+                    if good && (cur.storage.data != s.storage.data || cur.block != s.block) && ctx.id == "C19" {
+                        ctx.violation("c19:replay-from-genesis-differs-from-snapshot-derived-state:staking", json!({"engine": "staking", "history": s.path.iter().map(|i| sop_label(&alpha[*i as usize])).collect::<Vec<_>>()}));
                     }
                 }
                 n
@@ -1045,7 +1051,7 @@ pub fn run_c16(ctx: &Ctx) -> i32 {
             for s in ch {
                 for op in &slash_ops {
                     let mut rep = |class: &str, detail: Value| {
-                        if home("c16", class) {
+                        if home_c16_sweep(class) {
                             ctx.violation(&format!("c16:{}", class), detail)
                         }
                     };
